@@ -800,7 +800,9 @@ def narrow_twin(rng, case):
         if not fits:
             ins.append(a)
             continue
-        dt = rng.choice(fits)
+        # mostly the narrowest signed / unsigned type that holds the values (where wrap-around shows first), sometimes any fitting type
+        narrowest = [next(dt for dt in fits if numpy.dtype(dt).kind == k) for k in "iu" if any(numpy.dtype(dt).kind == k for dt in fits)]
+        dt = rng.choice(narrowest) if rng.random() < 0.8 else rng.choice(fits)
         data = numpy.where(numpy.ma.getmaskarray(a), vis[0] if vis else 0, numpy.ma.getdata(a)).astype(dt)
         ins.append(numpy.ma.array(data, mask=numpy.ma.getmaskarray(a).copy()))
         changed = True
